@@ -5,6 +5,7 @@ from checks.enginelib import charts, shrink
 from checks import c01
 
 THEOREMS = [
+    ("UscxmlVerif.Properties.C02.configuration_is_legal_partial", "proved", "PARTIAL: both engines alike keep the configuration legal (all six clauses of Spec.Legal.legal) on charts without <history>/<initial> elements meeting the decidable chart conditions, for every sequence of API operations"),
     ("UscxmlVerif.Properties.C03.both_engines_keep_complete_partial", "proved", "PARTIAL: on history-free coherent charts meeting the decidable DownOk (evaluated on the generated charts by check C02) a step of either engine keeps the configuration complete downwards: all children of an active parallel state, a child of an active compound state"),
     ("UscxmlVerif.Properties.C03.both_engines_keep_parents_partial", "proved", "PARTIAL: on history-free coherent charts with plain selectable transitions (decidable, evaluated on the generated charts by check C02) a step of either engine keeps the configuration parent-closed and inside the chart"),
     ("UscxmlVerif.Properties.C03.fast_selection_conflict_free_w3c_of_document", "proved", "PARTIAL: for every well-formed document FastMicroStep's selected set is conflict-free in Appendix D's sense, as LargeMicroStep's is (C01)"),
@@ -13,7 +14,7 @@ THEOREMS = [
     ("UscxmlVerif.Properties.C03.both_engines_keep_configuration_a_set", "proved", "both engines keep the configuration ascending, duplicate-free and free of pseudo-states"),
 ]
 FINISH = {"level": "exploration"}   # trace equality of the two engines is decided by running them side by side
-LEAN_FILES = ["UscxmlVerif.Properties.C03", "UscxmlVerif.Proofs.Select", "UscxmlVerif.Proofs.Interval", "UscxmlVerif.Proofs.Subtree", "UscxmlVerif.Proofs.ParentsFast", "UscxmlVerif.Proofs.DownFast", "UscxmlVerif.Proofs.DownRunFast"]
+LEAN_FILES = ["UscxmlVerif.Properties.C03", "UscxmlVerif.Proofs.Select", "UscxmlVerif.Proofs.Interval", "UscxmlVerif.Proofs.Subtree", "UscxmlVerif.Proofs.ParentsFast", "UscxmlVerif.Proofs.DownFast", "UscxmlVerif.Proofs.DownRunFast", "UscxmlVerif.Properties.C02", "UscxmlVerif.Proofs.XorFast"]
 
 
 def run(ctx):
@@ -23,7 +24,7 @@ def run(ctx):
     cases = c01.load_corpus("C01") + c01.load_corpus("C03") + c01.load_corpus("C13") + E.exhaustive_cases(ctx.tier) + E.gen_cases(ctx.rng, n)
     L, ML = E.run_batches(ctx, [E.case_line("large", d, e) for d, e in cases])
     F, MF = E.run_batches(ctx, [E.case_line("fast", d, e) for d, e in cases])
-    st = dict(inputs=len(cases), equal=0, large_ne_fast=0, fast_ne_model=0, large_ne_model=0, model_fast_ne_model_large=0, tokens=0, diverging=0)
+    st = dict(inputs=len(cases), equal=0, known=0, large_ne_fast=0, fast_ne_model=0, large_ne_model=0, model_fast_ne_model_large=0, tokens=0, diverging=0)
     broken = []
     for i, (d, evs) in enumerate(cases):
         st["tokens"] += len(L[i].split(" "))
@@ -36,8 +37,13 @@ def run(ctx):
             if F[i] != MF[i] or L[i] != ML[i]: broken.append((d, evs))
             continue
         st["large_ne_fast"] += 1
+        if "hist-shared" in c01.classify(d) and "hist-shared" in ctx.findings and L[i] == ML[i] and F[i] == MF[i]:
+            # the recorded finding: with nested histories LargeMicroStep restores what another history recorded (its shared
+            # history set), FastMicroStep does not - known only when each engine does exactly what its model predicts
+            st["known"] += 1; ctx.known("hist-shared", ""); continue
         if len(ctx.violations) < 3:
             def pred(d2, e2):
+                if "hist-shared" in c01.classify(d2): return False
                 a, _ = E.run_batches(ctx, [E.case_line("large", d2, e2)], want_driver=False, nproc=1)
                 b, _ = E.run_batches(ctx, [E.case_line("fast", d2, e2)], want_driver=False, nproc=1)
                 return a[0] != b[0]
